@@ -177,3 +177,37 @@ func TestC13MalformedStartKeyRejected(t *testing.T) {
 		t.Errorf("index resume after (a, 1): err=%v, %d items, want 2", err, len(o.Items))
 	}
 }
+
+// C13/C18: UpdateTable cannot give a key attribute that is in use another type (the AddIndex helper declares
+// every index attribute as S; over a number-typed table key that used to re-type the primary key: the
+// stored items were no longer reachable with their own keys and reachable with string keys).
+func TestC13UpdateTableCannotRetypeKey(t *testing.T) {
+	ctx := context.Background()
+	c := v2.NewClient()
+	tbl := "tbl"
+	_, err := c.CreateTable(ctx, &dynamodb.CreateTableInput{TableName: &tbl, BillingMode: v2types.BillingModePayPerRequest,
+		AttributeDefinitions: []v2types.AttributeDefinition{{AttributeName: &[]string{"h"}[0], AttributeType: v2types.ScalarAttributeTypeN}},
+		KeySchema:            []v2types.KeySchemaElement{{AttributeName: &[]string{"h"}[0], KeyType: v2types.KeyTypeHash}}})
+	if err != nil {
+		t.Fatal(err)
+	}
+	N := func(v string) v2types.AttributeValue { return &v2types.AttributeValueMemberN{Value: v} }
+	S := func(v string) v2types.AttributeValue { return &v2types.AttributeValueMemberS{Value: v} }
+	if _, err := c.PutItem(ctx, &dynamodb.PutItemInput{TableName: &tbl, Item: map[string]v2types.AttributeValue{"h": N("1"), "g": S("x")}}); err != nil {
+		t.Fatal(err)
+	}
+	if err := v2.AddIndex(ctx, c, tbl, "idx", "g", "h"); err == nil {
+		t.Errorf("an index that declares the number-typed table key h as a string was accepted")
+	}
+	o, err := c.GetItem(ctx, &dynamodb.GetItemInput{TableName: &tbl, Key: map[string]v2types.AttributeValue{"h": N("1")}})
+	if err != nil || len(o.Item) == 0 {
+		t.Errorf("the item is no longer reachable with its own key: err=%v", err)
+	}
+	if o, err := c.GetItem(ctx, &dynamodb.GetItemInput{TableName: &tbl, Key: map[string]v2types.AttributeValue{"h": S("1")}}); err == nil && len(o.Item) > 0 {
+		t.Errorf("the item is reachable with a string key")
+	}
+	// a new attribute can still be defined, and an unchanged definition of the key is accepted
+	if err := v2.AddIndex(ctx, c, tbl, "idx2", "g", ""); err != nil {
+		t.Errorf("a plain new index was rejected: %v", err)
+	}
+}
